@@ -103,6 +103,7 @@ class Func:
         self.epilogue = []
         self.whole = False
         self.slice = None
+        self.open_ok = False
         self.range_end = None
         self.kind = 'fn'
         self.tmpl_line = 0
@@ -363,7 +364,7 @@ def build_func(unit, f, grws):
                     d -= 1
                     if d < 0:
                         break
-            if d != 0:
+            if d != 0 and not f.open_ok:
                 raise ExtractError('%s: statement range in %s is not bracket-balanced' % (S.path, f.name))
         else:
             # block = first '{' at or after match start
@@ -558,6 +559,8 @@ def parse_template(path, mutation=None):
                             cur.outname = r[3:].strip()
                         if r == 'whole':
                             cur.whole = True
+                        if r == 'open':
+                            cur.open_ok = True   # the last line of the range opens a block that a rewrite rule closes or replaces
                         if r.startswith('to '):
                             cur.range_end = 'END' if r[3:].strip() == 'end' else parse_regex(r[3:])[0]
                 section = None
